@@ -4,8 +4,30 @@ import (
 	"fmt"
 	"time"
 
+	"github.com/protolambda/zrnt/eth2/beacon"
 	"github.com/protolambda/zrnt/eth2/beacon/common"
 )
+
+// GetAncestor returns the root of the latest block at or before the given slot on the chain of the given block entry,
+// like get_ancestor(store, root, slot) of the fork-choice spec. Returns false if a parent block is unknown.
+func GetAncestor(ch beacon.Chain, blockRef beacon.ChainEntry, slot common.Slot) (common.Root, bool) {
+	for blockRef.Step().Slot() > slot {
+		parentRoot, err := blockRef.ParentRoot()
+		if err != nil {
+			return common.Root{}, false
+		}
+		parentRef, ok := ch.ByBlock(parentRoot)
+		if !ok || parentRef.Step().Slot() >= blockRef.Step().Slot() {
+			return common.Root{}, false
+		}
+		blockRef = parentRef
+	}
+	root, err := blockRef.BlockRoot()
+	if err != nil {
+		return common.Root{}, false
+	}
+	return root, true
+}
 
 // CheckSlotSpan checks if the slot is within the span of slots, with MAXIMUM_GOSSIP_CLOCK_DISPARITY margin in time.
 func CheckSlotSpan(slotAfter func(delta time.Duration) common.Slot, slot common.Slot, span common.Slot) error {
